@@ -1416,7 +1416,10 @@ func (s *BgpServer) processRTCMembership(peer *peer, path *table.Path) {
 
 	rtKnownAfter := hasRt(rt)
 
-	if !path.IsWithdraw && rtKnownBefore || path.IsWithdraw && rtKnownAfter {
+	// Only the first announcement of an RT and the withdrawal of its last
+	// membership change what the peer is entitled to. In particular the
+	// withdrawal of a membership that was never accepted changes nothing.
+	if rtKnownBefore == rtKnownAfter {
 		return
 	}
 
